@@ -22,6 +22,16 @@ def main():
         tier = "quick"
     mod = importlib.import_module(f"props.{pid.lower()}")
     if replay:
+        import json
+        try:
+            stream = str(json.load(open(replay)).get("stream", ""))
+        except Exception:
+            stream = ""
+        if "@after-in-place-edits-of-handed-out-objects" in stream:
+            import pollute
+            for j in range(0, 60, 20):
+                pollute.pollute_all(f"{stream.split(' @')[0]}:{j}")
+            print("replay: objects handed out by earlier library calls were edited in place first (stream", stream + ")")
         return mod.replay(replay)
     return mod.main(tier)
 
